@@ -29,12 +29,12 @@ import (
 )
 
 type propCfg struct {
-	Level         string
-	QuickShards   int
-	ThoroughShard int
-	Parallel      int           // shards run at once
-	QuickTimeout  time.Duration // per shard
-	ThorTimeout   time.Duration
+	Level          string
+	QuickShards    int
+	ThoroughShard  int
+	Parallel       int           // shards run at once
+	QuickTimeout   time.Duration // per shard
+	ThorTimeout    time.Duration
 	CrashIsFinding bool // a child that dies is itself a violation (C11)
 }
 
